@@ -276,6 +276,14 @@ class BaseEMSurvey(ObjectBase, ABC):  # pylint: disable=too-many-public-methods
         clear_cache: bool = False,
         mask: np.ndarray | None = None,
     ):
+        if (
+            mask is not None
+            and getattr(self.complement, "n_vertices", None) != np.asarray(mask).shape[0]
+        ):
+            # The mask is defined on this entity's vertices: a complement with a
+            # different count (e.g. a single base station) is copied whole.
+            mask = None
+
         new_complement = self.complement._super_copy(  # pylint: disable=protected-access
             parent=parent,
             copy_children=copy_children,
